@@ -112,6 +112,47 @@ class Harness:
         return [(c['op'], dict(c['params'])) for c in sorted(self.s3.calls.values(), key=lambda c: c['call_id'])
                 if c['params'].get('Key') == key or (isinstance(c['params'].get('CopySource'), dict) and c['params']['CopySource'].get('Key') == key)]
 
+    def run_pair(self, method, mode, extra_a, extra_b):
+        """Two transfers with different arguments at the same time on the one manager.  Returns [(error-or-None, calls), ...]."""
+        import threading
+
+        size = 12 * 1024 * 1024 if mode != 'single' else 1024
+        subm = []
+        for extra in (extra_a, extra_b):
+            self.n += 1
+            key = f'cell{self.n}'
+            rec = {'key': key, 'extra': extra, 'f': None, 'err': None}
+            subm.append(rec)
+
+            def go(rec=rec, key=key, extra=extra):
+                try:
+                    if method == 'upload':
+                        path = os.path.join(self.tmp, key)
+                        self.osu.virtual_sizes[path] = size
+                        rec['f'] = self.mgr.upload(path, 'bkt', key, extra_args=dict(extra))
+                    elif method == 'download':
+                        self.s3.api_sizes[('bkt', key)] = size
+                        rec['f'] = self.mgr.download('bkt', key, os.path.join(self.tmp, key + '.out'), extra_args=dict(extra))
+                    else:
+                        self.s3.api_sizes[('srcbkt', key)] = size
+                        rec['f'] = self.mgr.copy({'Bucket': 'srcbkt', 'Key': key}, 'bkt', key, extra_args=dict(extra))
+                except Exception as e:  # noqa
+                    rec['err'] = ('submit', e)
+            rec['th'] = threading.Thread(target=go, name=f'vf-c15-submit-{key}', daemon=True)
+        for rec in subm:
+            rec['th'].start()
+        for rec in subm:
+            rec['th'].join(60)
+        out = []
+        for rec in subm:
+            if rec['f'] is not None:
+                try:
+                    rec['f'].result()
+                except Exception as e:  # noqa
+                    rec['err'] = ('result', e)
+            out.append((rec['err'], self.calls_for(rec['key'])))
+        return out
+
     def run(self, method, mode, extra, provide_size):
         """Returns (error-or-None, calls)."""
         from ..io import RecordingSubscriber
@@ -287,6 +328,7 @@ def gen_cases(tier, seed):
     cases.append({'type': 'legacy'})
     cases.append({'type': 'procpool'})
     cases += [dict(c, debug_log=True) for c in cases if c['type'] != 'reject' and c.get('checksum_mode', 'when_supported') == 'when_supported']
+    cases += pair_cases(random.Random(seed), tier == 'quick')
     return [c for c in cases if c.get('cells', True)]
 
 
@@ -333,6 +375,95 @@ def run_manager_cells(case):
                         viol.append(V(f'manager.copy: a second copy reusing the same copy_source dict without extra_args sent {stray} to HeadObject',
                                       sym='stale-args', front_end='manager', method='copy', mode=mode, op='HeadObject', arg=stray[0]))
                 stats['reuse_checks'] = stats.get('reuse_checks', 0) + 1
+    finally:
+        h.close()
+    return viol, stats, keys
+
+
+PAIR_QUALS = ('UploadSubmissionTask', 'CopySubmissionTask', 'DownloadSubmissionTask', 'PutObjectTask', 'UploadPartTask', 'CopyObjectTask', 'CopyPartTask',
+              'GetObjectTask', 'ImmediatelyWriteIOGetObjectTask', 'CreateMultipartUploadTask', 'CompleteMultipartUploadTask', 'Task._get_all_main_kwargs',
+              'Task._execute_main', 'TransferManager._submit_transfer', 'SubmissionTask._main')
+
+
+def pair_cases(rng, quick):
+    """Two transfers with DIFFERENT arguments (names and values) running at the same time on one manager, one thread held at a statement
+    of the submission / request code until the others have run as far as they can: the arguments of one never show up in the other's calls."""
+    from .. import windows
+    from s3transfer.manager import TransferManager
+
+    lines = [l for l in windows.candidate_lines() if l[2].startswith(PAIR_QUALS)]
+    pairs = []
+    for line in lines:
+        for rep in range(2 if quick else 8):
+            if line[0] == 'upload.py' or line[2].startswith(('PutObjectTask', 'UploadPartTask')):
+                method = 'upload'
+            elif line[0] == 'copies.py':
+                method = 'copy'
+            elif line[0] == 'download.py':
+                method = 'download'
+            else:
+                method = rng.choice(['upload', 'copy', 'download'])
+            mode = 'multi' if rep == 0 else rng.choice(['multi', 'multi', 'single'])
+            allowed = [a for a in {'upload': TransferManager.ALLOWED_UPLOAD_ARGS, 'copy': TransferManager.ALLOWED_COPY_ARGS,
+                                   'download': TransferManager.ALLOWED_DOWNLOAD_ARGS}[method]
+                       if not a.startswith('Checksum') and a not in ('MpuObjectSize', 'IfNoneMatch', 'IfMatch')]
+            a = rng.sample(allowed, 3)
+            b = rng.sample(allowed, 3)
+            if method == 'upload' and (rep == 0 or rng.random() < 0.8):
+                # each with the caller's own full-object checksum, of different algorithms
+                fa, fb = rng.sample([f for f in FULL if f not in NEEDS_CRT], 2)
+                a.append(fa)
+                if rep == 0 or rng.random() < 0.85:
+                    b.append(fb)
+            # (two transfers: the first or the second thread to reach the line is the one held)
+            w = {'file': line[0], 'lineno': line[1], 'name': f'{line[0]}:{line[1]}:{line[2]}', 'nth': 0 if rep == 0 else rng.choice([0, 0, 1]), 'action': 'pause', 'wait': 0.2}
+            pairs.append({'method': method, 'mode': mode, 'a': a, 'b': b, 'window': w, 'seed': rng.randrange(1 << 30)})
+    rng.shuffle(pairs)
+    n = 12
+    return [{'type': 'pairs', 'pairs': pairs[i::n]} for i in range(n) if pairs[i::n]]
+
+
+def run_pairs(case):
+    from .. import yieldinj
+
+    viol, keys = [], set()
+    stats = {'cells': 0, 'ops_compared': 0, 'pairs': 0, 'pair_window_hits': 0}
+    h = Harness('when_supported', False)
+    try:
+        for pr in case['pairs']:
+            extras = []
+            for names, salt in ((pr['a'], 'A'), (pr['b'], 'B')):
+                extra = {}
+                for a in names:
+                    shp = find_shape(a)
+                    extra[a] = value_for(a, shp, salt) if shp is not None else f'vf-{a}-{salt}'
+                extras.append(extra)
+            w = pr['window']
+            inj = yieldinj.Injector(p=0.0, seed=pr['seed'], files=[w['file']],
+                                    windows=[{'file': w['file'], 'line': w['lineno'], 'nth': w['nth'], 'action': 'pause', 'name': w['name'], 'wait': 0.2}]).install()
+            try:
+                res = h.run_pair(pr['method'], pr['mode'], extras[0], extras[1])
+            finally:
+                inj.uninstall()
+            stats['pairs'] += 1
+            stats['pair_window_hits'] += 1 if inj.window_hits else 0
+            for extra, (err, calls) in zip(extras, res):
+                v, n = check_cell('manager', pr['method'], pr['mode'], extra, calls, 'when_supported', False, err)
+                # nothing of the OTHER transfer's arguments
+                other = extras[1] if extra is extras[0] else extras[0]
+                for (op, params) in calls:
+                    for a, val in other.items():
+                        if a in params and params[a] == val and extra.get(a) != val:
+                            v.append(V(f'manager.{pr["method"]}[{pr["mode"]}] extra_args={sorted(extra)}: {op} carries {a}={val!r}, which is the value given to '
+                                       f'ANOTHER transfer running at the same time', sym='cross-transfer-arg', front_end='manager', method=pr['method'],
+                                       mode=pr['mode'], op=op, arg=a))
+                for x in v:
+                    x['mech']['pair'] = True
+                viol += v
+                stats['cells'] += 1
+                stats['ops_compared'] += n
+                if n:
+                    keys.add(('manager-pair', pr['method'], pr['mode'], tuple(sorted(extra)), pr['window']['name']))
     finally:
         h.close()
     return viol, stats, keys
@@ -510,6 +641,8 @@ def _run_case(case):
     t = case['type']
     if t == 'manager':
         viol, stats, keys = run_manager_cells(case)
+    elif t == 'pairs':
+        viol, stats, keys = run_pairs(case)
     elif t == 'reject':
         viol, stats, keys = run_reject(case)
     elif t == 'reject_other':
